@@ -115,7 +115,7 @@ Section NestedMap.
     intros Hkp Hk Hkv. unfold ebody, eP in *. eapply nit_bind; [apply nit_decode_key|]. intros [tag wt] s' _.
     destruct (tag =? 1).
     - eapply nit_bind with (P := shaped_ty sc (TScalar kp)).
-      + apply (nit_merge_ty sc (merge_field d sc)); [intros j0 x0 tag0 wt0 c0 s0 Hsh; apply (merge_field_shaped sc Hs); exact Hsh|exact Hkp|constructor].
+      + apply nit_merge_ty_scalar. exact Hkp.
       + intros k' s3 _. apply nit_ret. exact Hkv.
     - destruct (tag =? 2).
       + eapply nit_bind with (P := shaped_ty sc (TMsg k)).
